@@ -275,18 +275,23 @@ func init() {
 	externals["github.com/gotd/td/telegram/message/entity.setLength"] = setEntityField("Length")
 	externals["github.com/gotd/td/telegram/message/entity.setOffset"] = setEntityField("Offset")
 	// proto.GZIP.Decode: the inflate step (klauspost/compress) is outside the engine's reach. Model:
-	// the packed object is consumed and either rejected or yields 24 arbitrary bytes.
+	// the packed object is consumed and either rejected or yields 12 arbitrary bytes.
 	externals["(*github.com/gotd/td/proto.GZIP).Decode"] = func(fr *frame, args []value) value {
 		i := fr.i
 		if i.cfg.Concrete != nil {
 			return callSSARaw(i, fr, "", args)
 		}
-		i.res.Stubs["proto.GZIP.Decode: inflate not executed; yields an error or 24 arbitrary bytes"] = true
+		i.res.Stubs["proto.GZIP.Decode: inflate not executed; yields an error or 12 arbitrary bytes"] = true
 		okv := i.nondet("gzip:ok", types.Bool)
+		i.gzipCount++
+		if i.gzipCount > 2 {
+			// bound on nesting: a third packed object on one path is rejected
+			okv = false
+		}
 		if !i.branchVal(okv) {
 			return i.stdErrorsNew("verif: gzip decode failed")
 		}
-		data := make([]value, 24)
+		data := make([]value, 12)
 		for j := range data {
 			data[j] = i.nondet(fmt.Sprintf("gzip[%d]", j), types.Uint8)
 		}
